@@ -184,7 +184,7 @@ fn main() {
             if let ["sync", a, b] = t.as_slice() { sync_ops.push((a.to_string(), b.to_string())); }
         }
     } else {
-        let pttls: Vec<String> = ["0", "1", "-1", "-2", "-3", "1500", "9223372036854775807", "x", ""].iter().map(|t| format!("i:{}", hex(t.as_bytes()))).collect();
+        let pttls: Vec<String> = ["0", "1", "-1", "-2", "-3", "1500", "2147483648", "2592000000", "9223372036854775807", "x", ""].iter().map(|t| format!("i:{}", hex(t.as_bytes()))).collect();
         let others = ["n", "e", "s", "a", "b:6162"];
         let dumps = ["b:64756d70", "b:-", "n", "e", "s", "i:31"];
         for p in pttls.iter().map(|s| s.as_str()).chain(others.iter().cloned()) { for d in dumps.iter() { sync_ops.push((p.to_string(), d.to_string())); } }
@@ -207,6 +207,51 @@ fn main() {
                     let ttl: Option<i64> = obs.strip_prefix("restore ").and_then(|r| r.split(' ').next()).and_then(unhex).and_then(|b| String::from_utf8(b).ok()).and_then(|t| t.parse().ok());
                     let bad = match n { -2 => obs != "skip", -1 => ttl != Some(0), n if n >= 0 => !matches!(ttl, Some(t) if t >= 1 && t <= n.max(1)), _ => false };
                     if bad { let c = s.cases; s.stats.oracle_failure(c, &format!("UMSYNC path: PTTL {} with a dump gives {}", n, obs), if n == 0 { "F9" } else { "" }, vec![op.clone()]); }
+                    if n >= 0 { s.stats.nontrivial_case(&op); }
+                } } }
+            }
+            s.op(&op, &obs);
+        }
+    }
+    // ---- stream 3: the real pull path (get_data_entry + gen_restore_resp through the cfg hook) ----------
+    let mut pull_ops: Vec<(String, String)> = vec![];
+    if let Some(p) = &args.replay {
+        for l in read_lines(p) {
+            let t: Vec<&str> = l.split(' ').collect();
+            if let ["pull", a, b] = t.as_slice() { pull_ops.push((a.to_string(), b.to_string())); }
+        }
+    } else {
+        let pttls: Vec<String> = ["0", "1", "-1", "-2", "-3", "1500", "2147483648", "2592000000", "9223372036854775807", "x", ""].iter().map(|t| format!("i:{}", hex(t.as_bytes()))).collect();
+        let others = ["n", "e", "s", "a", "b:6162"];
+        let dumps = ["b:64756d70", "b:-", "n", "e", "s", "i:31"];
+        for d in dumps.iter() { for p in pttls.iter().map(|s| s.as_str()).chain(others.iter().cloned()) { pull_ops.push((d.to_string(), p.to_string())); } }
+        let n = if args.thorough { 3000 } else { 300 };
+        for _ in 0..n {
+            let v = gen_input(&mut rng, &mut s.stats);
+            let d = if rng.chance(5, 6) { let k = rng.range(0, 6) as usize; format!("b:{}", hex(&rng.bytes(k))) } else { (*rng.pick(&dumps)).to_string() };
+            pull_ops.push((d, format!("i:{}", hex(&v))));
+        }
+    }
+    for (d, p) in pull_ops {
+        if let (Some(dr), Some(pr)) = (reply_of(&d), reply_of(&p)) {
+            let res = rt.block_on(undermoon::proxy::migration_backend::verif_export::pull_transfer::<undermoon::proxy::session::CmdCtxFactory>(
+                b"k".to_vec(), Ok(dr.clone()), Ok(pr.clone())));
+            let obs = match res {
+                Ok(None) => "skip".to_string(),
+                Err(_) => "error".to_string(),
+                Ok(Some(Resp::Arr(undermoon::protocol::Array::Arr(el)))) => {
+                    let arg = |i: usize| match el.get(i) { Some(Resp::Bulk(BulkStr::Str(b))) => hex(b), _ => "?".to_string() };
+                    format!("restore {} {}", arg(2), arg(3))
+                }
+                Ok(Some(_)) => "unexpected".to_string(),
+            };
+            let op = format!("pull {} {}", d, p);
+            s.stats.count(&format!("pull.{}", obs.split(' ').next().unwrap_or("?")));
+            if let (Resp::Integer(pb), Resp::Bulk(BulkStr::Str(_))) = (&pr, &dr) {
+                if let Ok(txt) = std::str::from_utf8(pb) { if let Ok(n) = txt.parse::<i64>() { if n.to_string() == txt {
+                    let ttl: Option<i64> = obs.strip_prefix("restore ").and_then(|r| r.split(' ').next()).and_then(unhex).and_then(|b| String::from_utf8(b).ok()).and_then(|t| t.parse().ok());
+                    let bad = match n { -2 => obs != "skip", -1 => ttl != Some(0), n if n >= 0 => !matches!(ttl, Some(t) if t >= 1 && t <= n.max(1)), _ => false };
+                    if bad { let c = s.cases; s.stats.oracle_failure(c, &format!("pull path: PTTL {} with a dump gives {}", n, obs), if n == 0 { "F9" } else { "" }, vec![op.clone()]); }
                     if n >= 0 { s.stats.nontrivial_case(&op); }
                 } } }
             }
